@@ -682,6 +682,51 @@ class OpFlipCharges(Op):
 
 
 @register
+class OpDropHistory(Op):
+    """drop_leg_history(axes): the same blocks and dense layout, fused legs re-declared as plain legs.  No dense shadow is produced (the result cannot
+    be unfused any more); the op carries a relational oracle and feeds the differential / invariant / ownership checks."""
+    name = "drop_history"
+    shares = True
+
+    def gen(self, g):
+        a = g.pick_tensor(lambda s, v, sh: sh is not None and not sh.isdiag and sh.any_fused())
+        if a is None:
+            return None
+        sa = g.sh(a)
+        fused = [i for i, t in enumerate(sa.tree) if t != "e"]
+        if g.rng.random() < 0.3:
+            return {"op": "drop_history", "in": [a], "args": {"axes": None}}
+        axes = g.rng.sample(fused, g.rng.randint(1, len(fused)))
+        if g.rng.random() < 0.3 and sa.ndim > len(fused):
+            axes.append(g.rng.choice([i for i in range(sa.ndim) if i not in fused]))      # an unfused leg in the list is legal (nothing to drop)
+        return {"op": "drop_history", "in": [a], "args": {"axes": axes if len(axes) > 1 or g.rng.random() < 0.5 else axes[0]}}
+
+    def run(self, task, rec, ins):
+        x, ax = ins[0], rec["args"]["axes"]
+        y = x.drop_leg_history() if ax is None else x.drop_leg_history(axes=tuple(ax) if isinstance(ax, list) else ax)
+        w = core.current_world()
+        if not getattr(w, "generating", False) and getattr(w, "prop", None) in ("C01", "C02", "C03"):
+            axes = list(range(x.ndim)) if ax is None else (list(ax) if isinstance(ax, list) else [ax])
+            what = "op %d drop_leg_history(axes=%s)" % (rec["id"], ax)
+            lx, ly = x.get_legs(), y.get_legs()
+            for i in range(x.ndim):
+                if i in axes and not lx[i].history().startswith("m"):
+                    # (a meta-fused leg is a group of legs, not a record: drop_leg_history acts on the hard-fusion record of each member and is
+                    #  not held to anything here)
+                    if ly[i].is_fused() or (ly[i].s, tuple(ly[i].t), tuple(ly[i].D)) != (lx[i].s, tuple(lx[i].t), tuple(lx[i].D)):
+                        raise core.Violation(w.prop, "drop-history-legs", "%s: leg %d should keep signature/charges/dimensions and lose its history: %s -> %s" % (what, i, lx[i], ly[i]))
+                elif i not in axes and ly[i] != lx[i]:
+                    raise core.Violation(w.prop, "drop-history-legs", "%s: leg %d was not listed but changed: %s -> %s" % (what, i, lx[i], ly[i]))
+            if tuple(x.n) != tuple(y.n) or not np.array_equal(x.to_numpy(), y.to_numpy()):
+                raise core.Violation(w.prop, "drop-history-values", "%s: dense values / charge changed" % what)
+            w.stats["drop_history_checked"] += 1
+        return [y]
+
+    def shadow(self, task, rec, sins, outs, ins=None):
+        return [None]
+
+
+@register
 class OpTranspose(Op):
     name = "transpose"
     listed_c01 = True
@@ -1941,7 +1986,7 @@ DEFAULT_WEIGHTS = {
     "rand": 3, "rand_diag": 1, "add": 3, "scal": 1.5, "conj": 2, "transpose": 3, "tensordot": 6, "vdot": 1.5,
     "trace": 2, "broadcast": 1.5, "apply_mask": 1, "diag": 1, "add_leg": 1, "remove_leg": 1, "fuse": 3,
     "fuse_pair": 2, "unfuse": 2, "meta_to_hard": 0.7, "elementwise": 1.5, "copy": 1.5, "ncon": 1.5,
-    "factor_recombine": 1, "svd": 1, "norm": 0.5, "swap_gate": 1, "eigh_gram": 0.7, "observe": 0.3, "pair_unary": 1.5, "flip": 1.2,
+    "factor_recombine": 1, "svd": 1, "norm": 0.5, "swap_gate": 1, "eigh_gram": 0.7, "observe": 0.3, "pair_unary": 1.5, "flip": 1.2, "drop_history": 0.7,
 }
 
 
